@@ -282,6 +282,11 @@ theorem detUpdate_shift (c : Int) (s : Det) (inp : Input) (up : Bool) :
     detUpdate (shiftDet c s) (shiftInput c inp) up
       = (shiftDet c (detUpdate s inp up).1, (detUpdate s inp up).2) := by
   unfold detUpdate
+  have hfit : (shiftDet c s).fitted = s.fitted := rfl
+  rw [hfit]
+  by_cases hnf : (!s.fitted) = true
+  · simp only [hnf, ↓reduceIte]
+  simp only [hnf, Bool.false_eq_true, ↓reduceIte]
   rw [checkSeries_shift]
   cases checkSeries true inp with
   | error e => rfl
